@@ -106,14 +106,21 @@ func cryptWrite(fs filesystem.Filespace, how, path string, data []byte) error {
 	if err != nil {
 		return err
 	}
+	// the caller streams through ONE reused buffer and overwrites it as soon as Write has returned
+	// (io.Writer: implementations must not retain p); a one-chunk stream is overwritten before Close as well
+	buf := make([]byte, 1000)
 	for off := 0; off < len(data); off += 1000 {
 		end := off + 1000
 		if end > len(data) {
 			end = len(data)
 		}
-		if _, err := w.Write(data[off:end]); err != nil {
+		n := copy(buf, data[off:end])
+		if _, err := w.Write(buf[:n]); err != nil {
 			w.Close()
 			return err
+		}
+		for i := range buf[:n] {
+			buf[i] = 0xEE
 		}
 	}
 	return w.Close()
